@@ -105,7 +105,7 @@ def run(ctx):
     ctx.level = "model_checking"
     cases = grid_cases(ctx, ctx.pick("Render.cfg", "Render_thorough.cfg"))
     ngrid = len(cases)
-    cases += random_cases(ctx.seed, ctx.pick(4000, 60000))
+    cases += random_cases(ctx.seed, ctx.pick(3000, 60000))
     for i, c in enumerate(cases):
         c["id"] = i
     ctx.log(f"{ngrid} grid cases from TLC, {len(cases) - ngrid} seeded random cases")
